@@ -519,7 +519,7 @@ func C16(c *run.Check) {
 	defer finishTriage()
 	budget, depth, ns := 4, 3, 6
 	if !c.Quick() {
-		budget, depth, ns = 5, 3, 10
+		budget, depth, ns = 5, 3, 8
 	}
 	vals := c16Values(budget, depth, ns)
 	// also every scalar alone, in an array, as a member, and a few hand-written shapes
@@ -556,7 +556,7 @@ func C16(c *run.Check) {
 	}
 	var wellFormed, malformed int64
 	run.ParallelW(len(texts), func(w, i int) {
-		if !triage && c.Violations() > 0 {
+		if (!triage && c.Violations() > 0) || c.TimeUp() {
 			return
 		}
 		t := texts[i]
